@@ -137,6 +137,12 @@ def relayout(x, layout):
         return x.astype("<U%d" % (x.dtype.itemsize // 4 + 7))
     if layout == "object" and x.dtype.kind == "U":
         return x.astype(object)
+    if layout == "readonly":
+        # arrays the caller protects (setflags(write=False), a read-only memory map, np.broadcast_to): not part of LAYOUTS - in-place
+        # operations on a screen built from them may be refused, so only checks that expect that use it
+        y = np.array(x, copy=True)
+        y.setflags(write=False)
+        return y
     return x
 
 
